@@ -631,13 +631,18 @@ def traceH (fuel : Nat) : List HOp → HState → List HState
   | op :: ops, s => stepC fuel s op :: traceH fuel ops (stepC fuel s op)
 
 /-- release every slot: `cif_value_free` of each value slot, `cif_packet_free` of each packet slot -/
+def releaseOne (fuel : Nat) (r : Root) (h : Heap) (a : Nat) : Option Heap :=
+  match r with
+  | .val _ => freeObj fuel h a
+  | .pkt _ => packetFreeH fuel h a
+
 def releaseRoots (fuel : Nat) (s : HState) : List Root → Heap → Option Heap
   | [], h => some h
   | r :: rs, h =>
     match s.slot r with
     | none => releaseRoots fuel s rs h
     | some a =>
-      match (match r with | .val _ => freeObj fuel h a | .pkt _ => packetFreeH fuel h a) with
+      match releaseOne fuel r h a with
       | some h' => releaseRoots fuel s rs h'
       | none => none
 
